@@ -101,6 +101,16 @@ def run(tier, replay):
             raise vlib.ToolError("wsframe replay failed rc=%s: %s" % (p.returncode, p.stderr[-2000:]))
         return res[0]
 
+    if thorough:
+        # the header does not depend on the payload: two more payload contents per abstract frame
+        more = []
+        for x in vectors:
+            if x["k"] == "frame" and x["len"] > 0:
+                for j in (1, 2):
+                    y = dict(x)
+                    y["seed"] = (x["seed"] * 7 + 3 * j + ctx.seed) % 65537
+                    more.append(y)
+        vectors = vectors[:256] + [x for x in vectors[256:] if x["k"] == "frame"] + more + [x for x in vectors[256:] if x["k"] != "frame"]
     s = replay_lines(vectors)
     if s["lines"] != len(vectors):
         raise vlib.ToolError("harness consumed %d of %d lines" % (s["lines"], len(vectors)))
@@ -115,7 +125,7 @@ def run(tier, replay):
         if p["mismatches"]:
             ctx.violation("%s: %d case(s) disagree with WsFrame.tla; first: %s" % (name, p["mismatches"], json.dumps(p["first"][0])[:600]),
                           {"kind": "wsframe-vectors", "part": name, "first": p["first"]})
-    ctx.cov["traces_validated_against_impl"] += counts["frame"] + 65536 + counts["wire"]
+    ctx.cov["traces_validated_against_impl"] += sum(1 for x in vectors if x["k"] == "frame") + 65536 + counts["wire"]
     ctx.add_part("vectors", **counts)
 
     recs, t = trace_result
